@@ -50,7 +50,7 @@ pub fn meta(prop: &str) -> Meta {
                 "frost_core::compute_lagrange_coefficient", "frost_core::compute_group_commitment", "frost_core::scalar_mul (NAF multiscalar, positional mode)",
                 "frost_core::Identifier::try_from<u16>", "frost_core::Identifier::cmp",
             ],
-            bounds: "quick: all 2<=t<=n<=4 and (5,3); thorough: all 2<=t<=n<=7 and (10,7). All signer subsets for default identifiers (and for n<=4), minimal and full subsets for the u16-extreme, pseudo-random full-width and extreme-scalar identifier sets. Messages: symbolic block, empty, literal, 1332-byte mixed. Keys from dealer and (n<=5) from DKG. All scalar values symbolic. Shapes with more than eight signers: (9,5) quick; (9,9),(9,5),(12,9),(17,9) thorough (full set, top t-subset, a non-prefix (t+1)-subset).",
+            bounds: "quick: all 2<=t<=n<=4 and (5,3); thorough: all 2<=t<=n<=7 and (10,7). All signer subsets for default identifiers (and for n<=4), minimal and full subsets for the u16-extreme, pseudo-random full-width and extreme-scalar identifier sets. Messages: symbolic block, empty, literal, 1332-byte mixed. Keys from dealer and (n<=5) from DKG. All scalar values symbolic. Shapes with more than eight signers: (9,5),(34,2) quick; (9,9),(9,5),(12,9),(17,9),(33,2),(40,33),(65,3) thorough (full set, top t-subset, a non-prefix (t+1)-subset).",
             outside: &["real curve arithmetic and point encodings of the six suites", "ed25519-dalek verify_strict small-order/canonical checks", "n > 7 (10 in one configuration)", "symbolic identifiers"],
             ..base
         },
@@ -74,7 +74,7 @@ pub fn meta(prop: &str) -> Meta {
         },
         "C04" => Meta {
             functions: &["frost_core::aggregate_custom (Disabled / FirstCheater / AllCheaters)", "frost_core::detect_cheater", "frost_core::verify_signature_share", "frost_core::verify_signature_share_precomputed", "frost_core::round2::SignatureShare::verify", "frost_core::VerifyingKey::verify"],
-            bounds: "every signer's share replaced by a free adversarial value (one run covers every kind of wrong share); comparisons involving adversarial values fork: all 2^|S| honest/cheating patterns incl. cancelling errors; |S| <= 4 quick, <= 5 thorough; n <= 6; structural identifier-set mismatches",
+            bounds: "every signer's share replaced by a free adversarial value (one run covers every kind of wrong share); comparisons involving adversarial values fork: all 2^|S| honest/cheating patterns incl. cancelling errors; |S| <= 4 quick, <= 5 thorough; n <= 6; structural identifier-set mismatches; large sets (everybody signs, n = 9 and 34 quick, up to 40 thorough) with adversarial shares at the first, middle and last position",
             outside: &["Taproot parity variants live in C18"],
             ..base
         },
